@@ -2,7 +2,7 @@
 use parity_scale_codec::{Compact, Decode, Encode};
 #[derive(Encode, Decode)]
 pub enum T {
-	#[codec(skip)] #[codec(index = 256)] V0,
+	#[codec(index = 256)] #[codec(skip)] V0,
 	#[codec(skip)] V1 = 255,
 	#[codec(skip)] V2 = 256,
 }
